@@ -56,6 +56,11 @@ def run(ctx):
         authpw, privpw = rng.choice(pool)
         engine_id = b"\x80\x00\x1f\x88" + bytes(rng.randrange(256) for _ in range(rng.choice([1, 8, 13, 28])))
         user = "".join(chr(rng.randrange(97, 123)) for _ in range(rng.choice([1, 6, 32])))
+        if i % 4 == 1:
+            # the same account on the same engine again, with rotated pass-phrases / another hash:
+            # keys are a function of (pass-phrase, hash, engine id), never of (engine id, user) alone
+            engine_id, user = [(b"\x80\x00\x1f\x88\x04rotate", "rotating"), (b"\x80\x00\x1f\x88\x05other-engine", "rotating")][(i // 4) % 2]
+            res.count("same-account-new-secrets")
         creds = V3(user, Auth(authpw, method), Priv(privpw, "verifstream"))
         boots, etime = rng.choice([0, 5, 2**31 - 1]), rng.choice([0, 300, 2**31 - 1])
         v3 = RA.V3Config(engine_id=engine_id, boots=boots, clock=lambda t=etime: t)
